@@ -172,7 +172,43 @@ def src_check(modes, quick_n, thorough_n, rule, oracle):
                 m = case.get("meta", {})
                 return m.get("ntags", 1) >= 2 or m.get("gen") == "unbalanced"
             K.correspondence(rep, rows, comp, nontrivial, known=K.load_known(rep.prop), oracle=oracle)
+            del rows
+        if "blocks" in modes or "unbalanced" in modes:
+            tagseq_component(rep, tier, seed)
     return run
+
+
+def oracle_dyck(case, impl):
+    """a file whose tags spell the word w over {start, end} parses iff w is a Dyck word; then it has len(w)/2 blocks"""
+    w = case.get("meta", {}).get("word")
+    if case.get("meta", {}).get("gen") != "tagseq" or w is None:
+        return []
+    depth, dyck = 0, True
+    for ch in w:
+        depth += 1 if ch == "0" else -1
+        if depth < 0:
+            dyck = False
+            break
+    dyck = dyck and depth == 0
+    if "panic" in impl:
+        return [f"panic: {impl['panic']}"]
+    failed = "err" in impl.get("ctx", {})
+    if dyck and failed:
+        return [f"balanced tag word {w!r} rejected: {impl['ctx']['err']}"]
+    if not dyck and not failed:
+        return [f"unbalanced tag word {w!r} accepted"]
+    if dyck:
+        nb = sum(len(b) for b in (impl["ctx"].get("files") or {}).values())
+        if nb != len(w) // 2:
+            return [f"tag word {w!r}: {nb} blocks reported, {len(w) // 2} written"]
+    return []
+
+
+def tagseq_component(rep, tier, seed):
+    maxlen = 10 if tier == "quick" else 14
+    rep.rules.append(f"exhaustive: every word of at most {maxlen} start / end tags (balanced or not) in four comment layouts (one tag per comment in `#` and `//` comments, up to two tags per comment in `/* */` and `<!-- -->` comments); accepted iff the word is a Dyck word, with half as many blocks as tags")
+    rows = K.run_component(rep.prop, f"tagseq {maxlen}", [], seed, 0, tier)
+    K.correspondence(rep, rows, "tagseq", lambda c, i, m: c["meta"]["len"] >= 2, known=K.load_known(rep.prop), oracle=oracle_dyck)
 
 
 def faithful_walk(segs):
@@ -316,7 +352,7 @@ def oracle_unbalanced(case, impl):
     err = impl.get("ctx", {}).get("err")
     if not err:
         return [f"file {bad} has an unbalanced tag ({case['meta']['op']}) but the run did not fail: {K.outcome_key(impl)}"]
-    if err[0].get("file") != bad or err[0].get("kind") not in ("unclosed", "unexpected-close"):
+    if err[0].get("file") != bad:
         return [f"error does not name the damaged file {bad}: {err[0]}"]
     if impl.get("exit") != 1:
         return ["exit status is not 1"]
